@@ -43,6 +43,10 @@ var c14dSimResources = []sim.Resource{
 	{Group: "", Version: "v1", Resource: "pods", Kind: "Pod", Namespaced: true, HasStatus: true},
 	{Group: "apps.example.com", Version: "v1", Resource: "widgets", Kind: "Widget", Namespaced: true, HasStatus: false},
 	{Group: "", Version: "v1", Resource: "namespaces", Kind: "Namespace", Namespaced: false, HasStatus: true},
+	// one Kind in several API groups / versions (core Service and a Knative-like Service)
+	{Group: "", Version: "v1", Resource: "services", Kind: "Service", Namespaced: true, HasStatus: true},
+	{Group: "serving.example.com", Version: "v1", Resource: "services", Kind: "Service", Namespaced: true, HasStatus: true},
+	{Group: "serving.example.com", Version: "v2", Resource: "services", Kind: "Service", Namespaced: true, HasStatus: true},
 }
 
 var c14dOnce sync.Once
@@ -104,6 +108,7 @@ type c14dWorldSpec struct {
 	Rules       []c14dRule `json:"rules"`
 	Attachments []c14dRule `json:"attachments"`
 	Finalize    bool       `json:"finalize"`
+	Twin        bool       `json:"twin,omitempty"` // two rules with the same Kind, ignoreStatusChanges on one only
 	Parents     []c14dJ    `json:"parents"`
 }
 
@@ -357,7 +362,13 @@ var c14dRulePool = []c14dRule{
 	{APIVersion: "ctl.example.com/v1", Resource: "things", Kind: "Thing", Namespaced: true},
 	{APIVersion: "ctl.example.com/v1", Resource: "clusterthings", Kind: "ClusterThing", Namespaced: false},
 	{APIVersion: "v1", Resource: "pods", Kind: "Pod", Namespaced: true},
+	{APIVersion: "v1", Resource: "services", Kind: "Service", Namespaced: true},
+	{APIVersion: "serving.example.com/v1", Resource: "services", Kind: "Service", Namespaced: true},
+	{APIVersion: "serving.example.com/v2", Resource: "services", Kind: "Service", Namespaced: true},
 }
+
+// pairs of rules with the same Kind: other group, other group + version, other version of one group
+var c14dTwinPairs = [][2]int{{3, 4}, {3, 5}, {4, 5}}
 
 var c14dLabelSels = []*c14dSel{
 	nil,
@@ -495,13 +506,36 @@ func (g *c14dGen) world(i int) *c14dWorldSpec {
 		return rule
 	}
 	hasPods := false
+	if r.Chance(1, 4) {
+		// same Kind under two apiVersions, status changes ignored for one of them only
+		spec.Twin = true
+		pair := c14dTwinPairs[r.Intn(len(c14dTwinPairs))]
+		a, b := mkRule(pair[0]), mkRule(pair[1])
+		if r.Chance(2, 3) {
+			a.Labels, a.Annotations, b.Labels, b.Annotations = nil, nil, nil, nil
+		}
+		yes, no := true, false
+		a.IgnoreStatus, b.IgnoreStatus = &yes, &no
+		if r.Bool() {
+			a.IgnoreStatus, b.IgnoreStatus = nil, &yes
+		}
+		spec.Rules = []c14dRule{a, b}
+		if r.Bool() {
+			spec.Rules = []c14dRule{b, a}
+		}
+		if r.Chance(1, 4) {
+			spec.Rules = append(spec.Rules, mkRule(perm[0]))
+			hasPods = perm[0] == 2
+		}
+		nr = 0
+	}
 	for j := 0; j < nr; j++ {
 		spec.Rules = append(spec.Rules, mkRule(perm[j]))
 		if perm[j] == 2 {
 			hasPods = true
 		}
 	}
-	if r.Chance(1, 8) { // the same resource listed twice: the maps keep the last rule, ignoreStatusChanges of any counts
+	if !spec.Twin && r.Chance(1, 8) { // the same resource listed twice: the maps keep the last rule, ignoreStatusChanges of any counts
 		spec.Rules = append(spec.Rules, mkRule(perm[0]))
 	}
 	spec.Attachments = []c14dRule{{APIVersion: "apps.example.com/v1", Resource: "widgets", Kind: "Widget", Namespaced: true}}
@@ -509,20 +543,26 @@ func (g *c14dGen) world(i int) *c14dWorldSpec {
 		spec.Attachments = append(spec.Attachments, c14dRule{APIVersion: "v1", Resource: "pods", Kind: "Pod", Namespaced: true})
 	}
 	np := []int{0, 1, 2, 2, 3, 3, 4, 4}[r.Intn(8)]
+	if spec.Twin {
+		np = 3 + r.Intn(3)
+	}
 	seen := map[string]bool{}
 	for j := 0; j < np; j++ {
 		rule := &spec.Rules[r.Intn(len(spec.Rules))]
+		if spec.Twin && j < 2 {
+			rule = &spec.Rules[j] // one parent of each twin at least
+		}
 		ns := []string{"ns1", "ns2"}[r.Intn(2)]
 		if !rule.Namespaced {
 			ns = ""
 		}
 		name := []string{"p1", "p2", "p3"}[r.Intn(3)]
-		slot := rule.Kind + "|" + ns + "|" + name
+		slot := rule.APIVersion + "|" + rule.Kind + "|" + ns + "|" + name
 		if seen[slot] {
 			continue
 		}
 		seen[slot] = true
-		spec.Parents = append(spec.Parents, c14dCanon(g.parentObj(rule, ns, name, "uid-"+rule.Kind+"-"+ns+"-"+name)))
+		spec.Parents = append(spec.Parents, c14dCanon(g.parentObj(rule, ns, name, "uid-"+strings.ReplaceAll(rule.APIVersion, "/", ".")+"-"+rule.Kind+"-"+ns+"-"+name)))
 	}
 	return spec
 }
@@ -633,6 +673,9 @@ func (g *c14dGen) parentEvent(l *c14dLive) *c14dEvent {
 	default:
 		ev.Kind = "update"
 		ev.Upd = c14dParentUpdates[r.Intn(len(c14dParentUpdates))]
+		if l.spec.Twin && r.Chance(3, 4) {
+			ev.Upd = []string{"status", "status", "status", "generation", "labels", "finalizers", "spec-no-generation"}[r.Intn(7)]
+		}
 		ev.Old = base
 		ev.Obj = c14dCanon(g.parentUpdate(base, ev.Upd))
 	}
@@ -763,7 +806,7 @@ func (g *c14dGen) childEvent(l *c14dLive) *c14dEvent {
 }
 
 func (g *c14dGen) event(l *c14dLive) *c14dEvent {
-	if g.r.Chance(1, 2) {
+	if g.r.Chance(1, 2) || (l.spec.Twin && g.r.Chance(1, 2)) {
 		return g.parentEvent(l)
 	}
 	return g.childEvent(l)
@@ -863,6 +906,12 @@ func c14dRecord(w *vh.CaseWriter, l *c14dLive, ev *c14dEvent, keys []string) {
 	w.Count(fmt.Sprintf("enqueued-%d", len(keys)))
 	w.Count(fmt.Sprintf("cached-parents-%d", len(l.cache)))
 	w.Count(fmt.Sprintf("parent-kinds-%d", len(l.spec.Rules)))
+	if l.spec.Twin {
+		w.Count("twin-kinds")
+		if ev.Src == "parent" && ev.Kind == "update" {
+			w.Count("twin-parent-update-" + ev.Upd + "-" + fmt.Sprint(ev.Obj["apiVersion"]))
+		}
+	}
 	if ev.Kind == "tombstone" {
 		w.Count(ev.Src + "-tombstone")
 	}
@@ -876,13 +925,16 @@ func c14dRecord(w *vh.CaseWriter, l *c14dLive, ev *c14dEvent, keys []string) {
 		w.Count("ignore-status-changes")
 	}
 	if len(l.cache) > 0 || ev.Src == "parent" {
-		w.NonTrivial(vh.Sig("decorator", ev.Src, ev.Kind, ev.Role, ev.Upd, len(l.spec.Rules), ign, len(keys)))
+		w.NonTrivial(vh.Sig("decorator", ev.Src, ev.Kind, ev.Role, ev.Upd, len(l.spec.Rules), ign, len(keys), l.spec.Twin))
 	}
 }
 
 // c14dFeatures: what known-findings entries match on
-func c14dFeatures(src, kind, role, upd string) []string {
+func c14dFeatures(src, kind, role, upd string, twin bool) []string {
 	f := []string{src + "-" + kind, "role-" + role, "decorator"}
+	if twin {
+		f = append(f, "twin-kinds")
+	}
 	if upd != "" {
 		f = append(f, "update-"+upd)
 	}
@@ -901,7 +953,7 @@ func TestVerif_C14d(t *testing.T) {
 	}
 	emit := func(id string, l *c14dLive, ev *c14dEvent) {
 		keys := l.run(ev)
-		replay := c14dJ{"world": l.spec, "event": ev, "enqueued": keys, "features": c14dFeatures(ev.Src, ev.Kind, ev.Role, ev.Upd)}
+		replay := c14dJ{"world": l.spec, "event": ev, "enqueued": keys, "features": c14dFeatures(ev.Src, ev.Kind, ev.Role, ev.Upd, l.spec.Twin)}
 		if err := w.Add(id, c14dCoqCase(l, ev, keys), "C14_check", replay); err != nil {
 			t.Fatal(err)
 		}
@@ -950,6 +1002,36 @@ func TestVerif_C14d(t *testing.T) {
 		emit(fmt.Sprintf("k%d", i), l, ev)
 	}
 	l.close()
+	// corpus 2: one Kind in two API groups (and in two versions of one group), ignoreStatusChanges on one only
+	for ci, pair := range c14dTwinPairs {
+		for _, first := range []bool{true, false} {
+			yes, no := true, false
+			a, b := c14dRulePool[pair[0]], c14dRulePool[pair[1]]
+			a.IgnoreStatus, b.IgnoreStatus = &yes, &no
+			if !first {
+				a.IgnoreStatus, b.IgnoreStatus = nil, &yes
+			}
+			spec := &c14dWorldSpec{Name: "c14dt", Twin: true, Rules: []c14dRule{a, b},
+				Attachments: []c14dRule{{APIVersion: "apps.example.com/v1", Resource: "widgets", Kind: "Widget", Namespaced: true}}}
+			g := &c14dGen{r: vh.NewRng(uint64(ci + 1)), fin: "metacontroller.io/decoratorcontroller-c14dt"}
+			for _, rule := range spec.Rules {
+				spec.Parents = append(spec.Parents, c14dCanon(c14dJ{"apiVersion": rule.APIVersion, "kind": rule.Kind,
+					"metadata": c14dJ{"name": "svc", "namespace": "ns1", "uid": "uid-" + strings.ReplaceAll(rule.APIVersion, "/", "."), "generation": int64(1),
+						"labels": c14dJ{"tier": "a"}}, "spec": c14dJ{"x": int64(1)}, "status": c14dJ{"seen": int64(0)}}))
+			}
+			l, err := c14dBuild(spec)
+			if err != nil {
+				t.Fatal(err)
+			}
+			for pi, p := range l.cache {
+				for _, u := range []string{"status", "generation", "labels", "annotations", "resync", "finalizers"} {
+					ev := &c14dEvent{Src: "parent", Kind: "update", Old: c14dCopy(p), Obj: c14dCanon(g.parentUpdate(p, u)), Role: "corpus-twin", Upd: u}
+					emit(fmt.Sprintf("t%d%v_%d_%s", ci, first, pi, strings.ReplaceAll(u, "-", "")), l, ev)
+				}
+			}
+			l.close()
+		}
+	}
 	n := env.N
 	if n == 0 {
 		n = 300
